@@ -333,6 +333,29 @@ ADDENDA5 = {
     "C18": "; faithful model of os.path.normpath in the configuration path interpretation; a selection reads its own default",
     "C19": "; rounding mode of QUANTIZE folding; zero constants under zero point 0; x_real polynomials",
 }
+ADDENDA6 = {
+    "C02": "; interpretation of generate_weights for one and two cores (idle core windows); H x W = batch for every row of the batched fully-connected table; per-parity maxima of the weight double buffers",
+    "C03": "; memcpy elision requires agreement in every field the DMA reads",
+    "C04": "; SHRAM bank constants (shared with C15-c); wait commands carry their own counter",
+    "C05": "; HillClimb abort / acceptance consistency and sentinel start value",
+    "C06": "; structural model of the RegisterMachine (elision test, one bank); shift range of quantise_scale; stride multiples per layout",
+    "C07": "; integral-conversion aware evaluation of the list-interface range check; statement execution (c_exec) of the sub-kernel padding; zero-run search space constant",
+    "C08": "; forced / fused output quantisation precedence; argument order of the public encode wrapper by parameter names",
+    "C09": "; concrete interpretation of quantise_scale on significands that round up (multiplier below 2^31, value kept); clones shared across loop iterations; exact scaling equality; feature map / quantisation pairing",
+    "C10": "; rolling-buffer addressing from the tensor's own storage shape; effect order of the statements that create a rolling buffer; side agreement of tile base offsets",
+    "C11": "; rewrites ahead of placement act only on placed operators (default rewrite_unsupported, run_on_npu guards, trial clones); element type of folded constants; quantifier binding stems",
+    "C12": "; address maps cleared by every entry point; CPU passes list every output",
+    "C13": "; propositional facts of enclosing tests for `<dim> - 1` divisors; stale OFM aliases across a call that replaces the OFM; agreement of the bias range a constraint accepts with the range the encoder packs",
+    "C14": "; interpreter settings set unconditionally by every entry point",
+    "C15": "; SHRAM constants and available_shram_banks evaluated for 16 / 24 / 48 banks",
+    "C16": "; placement side of the pre-placement rewrite rule (shared with C11-m); all-consumers quantifier of slice folding",
+    "C17": "; operand order of the custom operator's memory tensors between writer and raw-data reader",
+    "C18": "; conversions of values read from the configuration file are guarded and reported as configuration errors (followed into helpers); every read goes through _read_config",
+    "C19": "; table generators widen both scales before the product",
+}
+for _pid, _t6 in ADDENDA6.items():
+    _tech, _text, _note, _ref = CLAIMS[_pid]
+    CLAIMS[_pid] = (_tech + _t6, _text, _note, _ref)
 for _pid, _t5 in ADDENDA5.items():
     _tech, _text, _note, _ref = CLAIMS[_pid]
     CLAIMS[_pid] = (_tech + _t5, _text, _note, _ref)
